@@ -197,8 +197,20 @@ def replay_hashcons(rep):
     return False, {"mode": "construction routes, constant arrays and cross-environment copies: nothing found"}
 
 
+def replay_optimizer_loop(rep):
+    from native import bounded_opt
+    for seed in (int(rep.get("seed", 0)), 1, 2):
+        r = bounded_opt.optimizer_check("quick", seed)
+        if r["violations"]:
+            return True, {"mode": "random finite-domain problems solved by the real optimisation routines with an exhaustive oracle",
+                          "failure": r["violations"][0]}
+    return False, {"mode": "random finite-domain problems with an exhaustive oracle: nothing found"}
+
+
 def dispatch(rep):
     kind = rep.get("kind")
+    if kind == "optimizer-loop":
+        return replay_optimizer_loop(rep)
     if kind == "hashcons":
         return replay_hashcons(rep)
     if kind == "smtlib-solver":
